@@ -58,7 +58,7 @@ def run(ctx):
         return
     out = os.path.join(ctx.scratch, "c12_cases.txt")
     env = vlib.goenv()
-    ncases = 150 if ctx.tier == "quick" else 5000
+    ncases = 150 if ctx.tier == "quick" else 12000
     env.update({"VERIF_SEED": str(ctx.seed), "VERIF_CASES": str(ncases)})
     if ctx.replay:
         r = json.load(open(ctx.replay))
